@@ -115,6 +115,7 @@ def record_decode(rid, payload, labelmsm=1, via="ctor", fields=None, frame_valid
         "attrs": [],
         "scaled": True,
         "scalebad": "",
+        "lbl": True,
     }
     msg = None
     try:
